@@ -111,6 +111,8 @@ def run_shard(shard):
         judge(acc, it, seen)
     for it in feed.boundary_immediate_items(pt, shard["shard"], shard["nshards"]):
         judge(acc, it, seen)
+    for it in feed.constant_block_items(pt, shard["shard"], shard["nshards"]):
+        judge(acc, it, seen)
     for it in feed.router_items(pt, rng, shard["routers"]):
         judge(acc, it, seen)
     for it in feed.abi_items(pt, rng, shard["abi"]):
